@@ -98,3 +98,37 @@ def check_steps(ctx, fn, rule='R-PARALLEL'):
 
 def lvalue_key_of(v):
     return 'v%d:%s' % (v.d, v.n)
+
+
+def check_cursors(ctx, fn, rule='R-PARALLEL'):
+    """An element cursor (pointer local initialised from an array start: `.items`, `->elements`, optionally + k)
+    that is dereferenced inside a counting loop must move in that loop (be advanced/reassigned) or be indexed;
+    otherwise every iteration works on the same element."""
+    n = 0
+    curs = {}
+    for v in fn.walk():
+        if v.k == 'VarDecl' and '*' in (v.t or '') and v.child('init') is not None:
+            i = _strip_casts(v.child('init'))
+            if i.k == 'BinaryOperator' and i.op == '+' and i.child('rhs').cv is not None:
+                i = _strip_casts(i.child('lhs'))
+            if i.k == 'MemberExpr' and i.n in ('items', 'elements'):
+                curs['v%d:%s' % (v.d, v.n)] = v
+    for key, v in curs.items():
+        scope = v.parent.parent if v.parent is not None else None
+        if scope is None:
+            continue
+        ders = [x for x in scope.walk() if x.id > v.id and ((x.k == 'UnaryOperator' and x.op == '*' and lvalue_key(x.child('sub')) == key) or (x.k == 'MemberExpr' and x.arrow and lvalue_key(x.child('base')) == key))]
+        tops = []
+        for x in ders:
+            loops = [a for a in x.ancestors() if a.k in ('ForStmt', 'WhileStmt', 'DoStmt') and any(y is a for y in scope.walk()) and a is not scope]
+            if loops:
+                top = loops[-1]   # outermost loop inside the declaration's scope
+                if not any(t is top for t in tops):
+                    tops.append(top)
+        for L in tops:
+            n += 1
+            idx = any(x.k == 'ArraySubscriptExpr' and lvalue_key(_strip_casts(x.child('base') or x.c[0])) == key for x in L.walk())
+            ok = _written(L, key) or idx
+            ctx.check(ok, rule, '%s/cursor-moves:%s@loop%d' % (fn.qn.replace('gdstk::', ''), pretty_key(key), L.id), L.loc(), 'element cursor `%s` moves in the loop that dereferences it' % pretty_key(key),
+                      'element cursor `%s` (set to the start of an array) is dereferenced in this loop but never advanced: every iteration works on the first element' % pretty_key(key))
+    return n
